@@ -344,6 +344,10 @@ pub fn order_corpus(kind: u32) -> Vec<String> {
     for (_n, d) in family_samples(10) {
         v.push(d);
     }
+    // lookups with several candidate matches: arcs of every size (corrupted circles) and circles touching circles
+    v.extend(circle_defect_family(if kind == 0 { 13 } else { 40 }));
+    v.extend(touching_circles_family());
+    v.extend(overlapping_bbox_family().into_iter().step_by(4));
     for d in [
         "+-------+\n|{a,b,c}|\n+-------+",
         "+---------+\n| {x} {y} |\n| {z}     |\n+---------+",
@@ -379,3 +383,94 @@ pub fn order_perm(n: usize, perm: usize, nperms: usize) -> Vec<usize> {
     (0..n).map(|i| (i * stride + off) % n).collect()
 }
 
+
+/// drawings whose top-level fragments have overlapping but not nested bounding boxes:
+/// two long parallel diagonals (both directions, several offsets and lengths) with a short
+/// run or a label in the intersection of their boxes; a labelled box next to a long diagonal
+pub fn overlapping_bbox_family() -> Vec<String> {
+    let mut v = vec![];
+    for dir in [2u8, 3] {
+        for l in [6usize, 9, 12] {
+            for gap in [3i32, 5] {
+                for inner in ["-", "~", "_", "|", "=", "ab", "a", "--", "*"] {
+                    for pos in 0..3 {
+                        let mut cv = Canvas::new();
+                        for i in 0..l as i32 {
+                            let x = if dir == 2 { i } else { l as i32 - 1 - i };
+                            cv.put(x, i, if dir == 2 { '\\' } else { '/' });
+                            cv.put(x + gap + 2, i, if dir == 2 { '\\' } else { '/' });
+                        }
+                        // something small between the two diagonals, not touching either
+                        let row = (l as i32 / 4) * (pos + 1);
+                        let xd = if dir == 2 { row } else { l as i32 - 1 - row };
+                        cv.text(xd + 2, row.min(l as i32 - 1), inner);
+                        v.push(cv.render());
+                    }
+                }
+            }
+        }
+    }
+    for l in [6usize, 10] {
+        for label in ["ab", "x"] {
+            let mut cv = Canvas::new();
+            cv.paste(0, 1, &format!("+----+\n| {:<2} |\n+----+", label));
+            for i in 0..l as i32 {
+                cv.put(8 + i, i, '\\');
+            }
+            v.push(cv.render());
+            let mut cv = Canvas::new();
+            cv.paste(3, 0, ".-.\n| |\n'-'");
+            cv.text(4, 1, "a");
+            for i in 0..l as i32 {
+                cv.put(l as i32 + 8 - i, i, '/');
+            }
+            v.push(cv.render());
+        }
+    }
+    v
+}
+
+/// pairs of catalogue circles touching or overlapping each other (a bubble on the rim of a bigger circle)
+pub fn touching_circles_family() -> Vec<String> {
+    let cat = catalog();
+    let mut v = vec![];
+    for (i, a) in cat.iter().enumerate() {
+        for (j, b) in cat.iter().enumerate() {
+            if j > 2 || i < 3 || i > 12 {
+                continue;
+            }
+            let (wa, ha) = crate::enumr::extent(a);
+            let (wb, hb) = crate::enumr::extent(b);
+            for (dx, dy) in [(wa as i32, 0i32), (wa as i32 - 1, 0), (0, ha as i32), (wa as i32, ha as i32 / 2), (-(wb as i32), 0), (wa as i32 / 2, -(hb as i32)), (0, 0)] {
+                let mut cv = Canvas::new();
+                cv.paste(0, 0, a);
+                cv.paste(dx, dy, b);
+                v.push(cv.render());
+            }
+        }
+    }
+    v
+}
+
+/// every catalogue circle with one of its cells blanked (yields three-quarter, half and quarter arcs with remains)
+pub fn circle_defect_family(max_width: usize) -> Vec<String> {
+    let mut v = vec![];
+    for art in catalog() {
+        let (w, _h) = crate::enumr::extent(&art);
+        if w > max_width {
+            continue;
+        }
+        let g: Vec<Vec<char>> = art.split('\n').map(|l| l.chars().collect()).collect();
+        for r in 0..g.len() {
+            for c in 0..g[r].len() {
+                if g[r][c] == ' ' {
+                    continue;
+                }
+                let mut h = g.clone();
+                h[r][c] = ' ';
+                v.push(h.iter().map(|r| r.iter().collect::<String>()).collect::<Vec<_>>().join("\n"));
+            }
+        }
+    }
+    v
+}
